@@ -1321,6 +1321,14 @@ class CxxEvaluator(Evaluator):
             for a in e["a"]:
                 self._null_moved_from(a, env, this)         # make_pair (std::move (p), ...) takes the pointer over
             return (vals[0], vals[1])
+        if k == "call" and e.get("fn") == "emplace_back" and (e.get("cls") or "").startswith("std::vector<std::basic_string<") and e.get("obj") is not None and len(e.get("a", [])) != 1:
+            # the element is constructed in place from the arguments: std::string (ptr, len), (count, char), () ...
+            o = self.eval(e["obj"], env, this)
+            args = [self.eval(a, env, this) for a in e["a"]]
+            if isinstance(o, Vec):
+                o.items.append(StdStr.construct(args))
+                _invalidate(o, 0)
+                return None
         if k == "call" and e.get("fn") == "emplace" and (e.get("cls") or "").startswith("std::map<") and e.get("obj") is not None and len(e.get("a", [])) == 2:
             m = self.eval(e["obj"], env, this)
             if isinstance(m, MapObj):
